@@ -400,7 +400,14 @@ namespace ipr {
          }
          void visit(const Expr& e) override
          {
+            // Not a primary expression: print it parenthesized, as a full expression.  Coming back
+            // here for the same node means that no printer exists for this kind of expression.
+            if (pp.parenthesizing == &e)
+               Missing_overrider{ }(e);
+            const auto outer = pp.parenthesizing;
+            pp.parenthesizing = &e;
             pp << token('(') << xpr_expr(e) << token(')');
+            pp.parenthesizing = outer;
          }
          void visit(const Decl& d) override { d.name().accept(*this); }
       };
